@@ -323,6 +323,22 @@ class Facts:
             raise KeyError("expected exactly one impl %s<%s> for %s with method %s, found %d" % (trait, arg_re, self_re, name, len(out)))
         return out[0]
 
+    def impl_methods(self, trait, self_re, arg_re, name, crates=("geo", "geo_types")):
+        out = []
+        for im in self.impls:
+            if im.get("trait") != trait or im["crate"] not in crates:
+                continue
+            if self_re is not None and not re.search(self_re, im["self_ty"]):
+                continue
+            if arg_re is not None:
+                ta = im.get("trait_args", [])
+                if len(ta) < 2 or not re.search(arg_re, ta[1]):
+                    continue
+            f = self.impl_fn(im, name)
+            if f is not None:
+                out.append(f)
+        return out
+
     def impl_fn(self, im, name):
         for it in im["items"]:
             if it["name"] == name:
